@@ -16,12 +16,20 @@ META = {
             "induction on trees), C15_tables_cover (every table reference in any expression position at any depth, "
             "and the statement's own target, is reported by Tables() with at least its mode), C15_authz / "
             "C15_deny_justified (allow => every reported usage had its permission check and it held; a denial names "
-            "a check that failed), C15_sound (end to end) and C15_ddl_needs_admin. Their decidable hypotheses are "
+            "a check that failed), C15_sound (end to end), C15_ddl_needs_admin, and for a multi-statement @sql "
+            "request (authorizeBatch = the loop of authorizeAndFormatStatements) C15_batch_allow_iff / "
+            "C15_batch_sound / C15_batch_deny_justified: the request is allowed iff every statement alone is, so "
+            "every usage of EVERY statement is checked with the permission its own kind needs "
+            "(C15_batch_memo_counterexample: remembering an allowed (table, usage) across statements is unsound). "
+            "Their decidable hypotheses are "
             "discharged by `decide` over the GENERATED schema. The model is tied to the code by running it on a "
             "reflection dump of the real AST of generated statements (Tables(), StatementKind, the two authorize "
             "loops with their recorded permission checks), and by a model-free oracle: an independent reflection "
             "walk + SQLite EXPLAIN give the tables a statement touches; withholding exactly one needed permission "
-            "must make the real @sql and @transaction gates answer 403.",
+            "must make the real @sql and @transaction gates answer 403. The @sql leg also sends requests of 2-4 "
+            "statements (same and different tables, mixed kinds): each (table, permission) any statement needs is "
+            "withheld in turn and the whole request must be refused with nothing returned for execution; a part is "
+            "POSTed to the real SQLTransaction handler on a real SQLite database (403 and no table changed).",
     "note": "trusted: Lean kernel; the translator (fails closed; its field classification is cross-checked against "
             "reflect on every run); the correspondence harness; SQLite (modernc) EXPLAIN as evidence of tables "
             "opened. Modelled, not verified: the parser (a statement's AST is taken as what it means; EXPLAIN of "
@@ -38,7 +46,8 @@ META = {
 }
 
 REQUIRED = ["C15_walk_complete", "C15_tables_cover", "C15_authz", "C15_deny_justified", "C15_sound",
-            "C15_ddl_needs_admin"]
+            "C15_ddl_needs_admin", "C15_batch_allow_iff", "C15_batch_sound", "C15_batch_deny_justified",
+            "C15_batch_memo_counterexample"]
 
 OBLIGATIONS = """
 open EgoVerif.C15
@@ -69,8 +78,19 @@ theorem gen_ddl (pm : PermMap) (s : Sess) (n : Node) (hk : kindModel Gen.cases n
     (hallow : (authorize Gen.schema Gen.cases Gen.cfg pm s n).2 = none) : s.dsnAdmin = true :=
   C15_ddl_needs_admin Gen.schema Gen.cases Gen.cfg pm s Gen.schemaAltering gen_ddlAdmin gen_unknownNotAltering
     gen_cfg n hk hallow
+/-- the same for a multi-statement @sql request: every statement, with the permission of its own kind -/
+theorem gen_batch_sound (s : Sess) (ns : List Node)
+    (hstmt : ∀ n ∈ ns, (Schema.entry Gen.schema n.ty).isStmt = true ∧ WT Gen.schema n)
+    (hallow : (authorizeBatch Gen.schema Gen.cases Gen.cfg Gen.writePermSql s ns).2 = none) :
+    ∀ n ∈ ns, ∀ u ∈ touched n, ∃ v : Usage, v.name = u.name ∧ u.mode.rank ≤ v.mode.rank ∧
+      (checkFor Gen.writePermSql (kindModel Gen.cases n) v).holds s = true :=
+  fun n hn u hu =>
+    let ⟨v, h1, h2, h3, _⟩ := C15_batch_sound Gen.schema Gen.cases Gen.cfg Gen.writePermSql s gen_schemaComplete
+      gen_casesComplete ns hstmt hallow n hn u hu
+    ⟨v, h1, h2, h3⟩
 #print axioms gen_sound
 #print axioms gen_ddl
+#print axioms gen_batch_sound
 """
 
 PRINT = """
@@ -171,8 +191,14 @@ def run(ctx):
                 "CREATE/DROP INDEX, CREATE/DROP VIEW, transaction control; both dialects; hostile/malformed stream; "
                 "fixed nasty corpus first); non-trivial = a table reference outside the statement's own target "
                 "(subquery, CTE, join, compound) or a DDL statement; each parsed statement is run through both "
-                "gates with full grants, each needed permission withheld in turn, and a random grant set",
-        "samples": st.get("samples", []),
+                "gates with full grants, each needed permission withheld in turn, and a random grant set; "
+                "multi-statement @sql requests of 2-4 statements (fixed corpus, then generated around one focus table "
+                "with mixed INSERT/UPDATE/DELETE/SELECT, other tables, arbitrary generated statements; both dialects) "
+                "through the @sql gate with full grants, each (table, permission) of each statement withheld in turn "
+                "and two random grant sets (counters batches / batch_authz_runs; batch_distinct_nontrivial = requests "
+                "in which one table is needed under two different permissions), and a part of them end to end through "
+                "SQLTransaction on a real SQLite file (counters e2e_*)",
+        "samples": st.get("samples", []) + ((ctx.read_jsonl("c15_batch_samples.json") or [[]])[0] or []),
         "counters": c,
     })
     return ctx.finish()
